@@ -38,14 +38,21 @@ GPATHS = {
     'step20-25': lambda k: Fr(20) if k < 3 else Fr(25),
     'alternating': lambda k: Fr(20) if k % 2 == 0 else Fr(30),
     'const0.8': lambda k: Fr(4, 5),
+    'thirds': lambda k: Fr(61, 3) + Fr(k, 7),          # no finite decimal expansion: only used with the paths handed over as Python objects
 }
+OBJECT_ONLY = ('thirds', 'thirtieth')
 RPATHS = {
     'const': lambda k: Fr(25, 1000),
     'step': lambda k: Fr(25, 1000) if k < 3 else Fr(35, 1000),
+    'thirtieth': lambda k: Fr(1, 30) + Fr(k, 7000),
 }
 
 
-def path_text(fn, n):
+def path_text(fn, n, gform='exogenous'):
+    if gform == 'list':            # AddExogenous documents that a list or tuple object is accepted as well as its text
+        return [float(fn(k)) for k in range(n)]
+    if gform == 'tuple':
+        return tuple(float(fn(k)) for k in range(n))
     return '[' + ', '.join(repr(float(fn(k))) for k in range(n)) + ']'
 
 
@@ -118,7 +125,7 @@ def run_sim(kind, a1, a2, th, gname, H0, YDe0, n, tol, gform='exogenous'):
     if gform == 'equation':
         gov.SetEquationRightHandSide('DEM_GOOD', repr(float(GPATHS[gname](0))))     # a constant written as an equation
     else:
-        gov.SetExogenous('DEM_GOOD', path_text(GPATHS[gname], n + 2))
+        gov.SetExogenous('DEM_GOOD', path_text(GPATHS[gname], n + 2, gform))
     if H0:
         hh.AddInitialCondition('F', H0)
         gov.AddInitialCondition('F', -H0)
@@ -147,8 +154,8 @@ def run_pc(a1, a2, th, l0, l1, l2, gname, rname, stocks, n, tol, gform='exogenou
     if gform == 'equation':
         tre.SetEquationRightHandSide('DEM_GOOD', repr(float(GPATHS[gname](0))))
     else:
-        tre.SetExogenous('DEM_GOOD', path_text(GPATHS[gname], n + 2))
-    dep.SetExogenous('r', path_text(RPATHS[rname], n + 2))
+        tre.SetExogenous('DEM_GOOD', path_text(GPATHS[gname], n + 2, gform))
+    dep.SetExogenous('r', path_text(RPATHS[rname], n + 2, gform))
     if stocks == 'custom':
         # the user's own stocks, stated AFTER whatever the builder declared (the last statement counts)
         hh.AddInitialCondition('F', 60.)
@@ -430,7 +437,7 @@ def run_unit(unit, tier):
     fam = unit['family']
     cases = []
     if fam in ('SIM', 'SIMEX1'):
-        for G, H0 in itertools.product(sorted(g for g in GPATHS if g != 'const0.8'), (0, 80)):
+        for G, H0 in itertools.product(sorted(g for g in GPATHS if g != 'const0.8' and g not in OBJECT_ONLY), (0, 80)):
             for y0 in ((0, 16) if fam == 'SIMEX1' else (0,)):
                 cases.append({'model': fam, 'a1': unit['a1'], 'a2': unit['a2'], 'th': unit['th'], 'G': G, 'H0': H0, 'YDe0': y0,
                               'horizon': unit['horizon']})
@@ -440,12 +447,16 @@ def run_unit(unit, tier):
                           'horizon': unit['horizon'], 'gform': 'equation'})
         cases.append({'model': fam, 'a1': unit['a1'], 'a2': unit['a2'], 'th': unit['th'], 'G': 'alternating', 'H0': 0,
                       'YDe0': 16 if fam == 'SIMEX1' else 0, 'horizon': unit['horizon'], 'gform': 'override'})
+        # the path handed over as a Python list / tuple of floats without a short decimal form (seventh wave)
+        for gform in ('list', 'tuple'):
+            cases.append({'model': fam, 'a1': unit['a1'], 'a2': unit['a2'], 'th': unit['th'], 'G': 'thirds', 'H0': 80 if gform == 'list' else 0,
+                          'YDe0': 0, 'horizon': unit['horizon'], 'gform': gform})
         if fam == 'SIMEX1':
             # the user's own initial expectation and wealth stated after the book's
             cases.append({'model': fam, 'a1': unit['a1'], 'a2': unit['a2'], 'th': unit['th'], 'G': 'step20-25', 'H0': 80,
                           'YDe0': 10, 'horizon': unit['horizon'], 'gform': 'override'})
     elif fam == 'PC':
-        for l2, G, r, stocks in itertools.product([.01, 0.], ['const20', 'step20-25'], sorted(RPATHS), (False, True, 'cash')):
+        for l2, G, r, stocks in itertools.product([.01, 0.], ['const20', 'step20-25'], sorted(r for r in RPATHS if r not in OBJECT_ONLY), (False, True, 'cash')):
             cases.append({'model': 'PC', 'a1': unit['a1'], 'a2': unit['a2'], 'th': unit['th'], 'l0': unit['l0'], 'l1': unit['l1'], 'l2': l2,
                           'G': G, 'r': r, 'stocks': stocks, 'horizon': unit['horizon']})
         base = {'model': 'PC', 'a1': unit['a1'], 'a2': unit['a2'], 'th': unit['th'], 'l0': unit['l0'], 'l1': unit['l1'], 'l2': .01, 'horizon': unit['horizon']}
@@ -453,9 +464,11 @@ def run_unit(unit, tier):
         cases.append(dict(base, G='step20-25', r='step', stocks=True, gform='override'))
         cases.append(dict(base, G='const20', r='const', stocks='custom', gform='override'))
         cases.append(dict(base, G='const20', r='step', stocks='custom'))
+        cases.append(dict(base, G='thirds', r='thirtieth', stocks=True, gform='list'))
+        cases.append(dict(base, G='const20', r='thirtieth', stocks=False, gform='tuple'))
     else:
         b = BOUNDS[tier]
-        for a1, a2, th, G, H0 in itertools.product(b['alpha1'], b['alpha2'], b['theta'], sorted(GPATHS), (0, 80)):
+        for a1, a2, th, G, H0 in itertools.product(b['alpha1'], b['alpha2'], b['theta'], sorted(g for g in GPATHS if g not in OBJECT_ONLY), (0, 80)):
             case = {'model': 'ITER', 'a1': a1, 'a2': a2, 'th': th, 'G': G, 'H0': H0, 'horizon': unit['horizon']}
             dig.add(sorted(case.items()))
             viols, indet = check_iterative(case)
